@@ -669,6 +669,7 @@ func c10Body(t *zsim.Tape, w *zsim.World, d *zsim.Disk, sc *c10Scenario, out *hl
 		`null`, ` null `, `true`, `123`, `"text"`, `{}`, `{"VarInput":null,"SourceCode":null}`, `{"SourceCode":5}`, `[null]`,
 		`not json`,
 		``,
+		"\n", " \r\n ", "\t", " ", "\n\n{}", // blank texts: what `echo | curl --data-binary @-` sends
 		`{"SourceCode":"抛出异常：“x”！","VarInput":""}`,
 	}
 	body := bodies[t.Draw(len(bodies))]
